@@ -350,3 +350,6 @@ def check(ctx):
         check_delegates(ctx, cfg)
         check_tuples(ctx, cfg)
         check_lifetimes(ctx, cfg)
+        # C02.M: the mutable views write through to the storage only if their pointers carry write permission (derived from `&mut` all the way)
+        from ..rules import check_write_permission
+        check_write_permission(ctx, cfg, "C02.M")
